@@ -3,7 +3,7 @@ ID = 'C02'
 LEVEL = 'exploration'
 LEVEL_TEXT = ('bounded: project(parseString(render(a, s))) == a for every abstract sheet a of the generator (<= 2 rules x <= 2 selectors x <= 2 declarations over the '
               'construct inventory, pairwise over construct kinds) and every spelling s of the tier (white space, comments between tokens, letter case of the '
-              'case-insensitive parts, quote style, url() quoting, CSS escapes of ordinary name characters, last semicolon, number padding), plus the two option clauses '
+              'case-insensitive parts (incl. the media query keywords only / not / and, also in queries without a media type), quote style, url() quoting, CSS escapes of ordinary name characters, last semicolon, number padding), plus the two option clauses '
               '(parseComments=False removes exactly the comments, validate=False changes nothing) and spelling-invariance of specificity')
 LEVEL_NOTE = ('the oracle is the abstract tree the source was rendered from (bounded/gen.py), never the parser; blind to constructs outside the generator grammar '
               '(no @variables, no attribute/pseudo combinations beyond pairs, calc() without parentheses, media feature values of one component) and to sheets larger '
